@@ -31,6 +31,36 @@ pub fn check_snapshot(
         },
         None => bad("header", "CONSERVE header missing".into()),
     }
+    // Nothing but the documented files and directories
+    for f in snap.files.keys() {
+        let parts: Vec<&str> = f.split('/').collect();
+        let hexname = |s: &str| s.len() == 128 && s.bytes().all(|c| c.is_ascii_hexdigit() && !c.is_ascii_uppercase());
+        let digits = |s: &str, n: usize| s.len() == n && s.bytes().all(|c| c.is_ascii_digit());
+        let known = match parts.as_slice() {
+            ["CONSERVE"] | ["GC_LOCK"] => true,
+            [b, "BANDHEAD"] | [b, "BANDTAIL"] => fmt06::parse_band_dir(b).is_some(),
+            [b, "i", sub, hunk] => fmt06::parse_band_dir(b).is_some() && digits(sub, 5) && digits(hunk, 9),
+            ["d", sub, name] => sub.len() == 3 && hexname(name),
+            _ => false,
+        };
+        if !known {
+            bad("unexpected-file", format!("{f} is not a file the format documents"));
+        }
+    }
+    for d in &snap.dirs {
+        let parts: Vec<&str> = d.split('/').collect();
+        let known = match parts.as_slice() {
+            ["d"] => true,
+            ["d", sub] => sub.len() == 3,
+            [b] => fmt06::parse_band_dir(b).is_some(),
+            [b, "i"] => fmt06::parse_band_dir(b).is_some(),
+            [b, "i", sub] => fmt06::parse_band_dir(b).is_some() && sub.len() == 5,
+            _ => false,
+        };
+        if !known {
+            bad("unexpected-directory", format!("{d} is not a directory the format documents"));
+        }
+    }
     let mut block_len: BTreeMap<String, usize> = BTreeMap::new();
     // Blocks
     for (name, path) in snap.block_files() {
@@ -216,7 +246,15 @@ pub fn judge_case(t: &Tree, opts: &crate::run::BOpts, tag: &str, scratch: &crate
 }
 
 pub fn hist_oracle(tr: &crate::hist::Transition) -> Vec<Violation> {
-    check_snapshot(&tr.child.snap, Some(&tr.child.heads), &tr.at())
+    let mut v = check_snapshot(&tr.child.snap, Some(&tr.child.heads), &tr.at());
+    // no operation that ran to its end leaves the gc lock behind
+    if tr.child.snap.files.contains_key("GC_LOCK") {
+        v.push(Violation::new(
+            "C13:gc-lock-left-behind",
+            format!("{}: GC_LOCK is still there after the operation returned", tr.at()),
+        ));
+    }
+    v
 }
 
 pub fn run(report: &Report, budget: &Budget) {
